@@ -32,9 +32,14 @@ def encodable(s):
         return False
 
 
-def to_json(v):
+def to_json(v, _stack=()):
+    """driver encoding; anything dumps has no branch for, and any self-containing container, is opaque"""
     if v is None or v is True or v is False:
         return v
+    if isinstance(v, (list, tuple, dict)):
+        if id(v) in _stack:
+            return {'o': 1}
+        _stack = _stack + (id(v),)
     if isinstance(v, int):
         return {'i': str(v)}
     if isinstance(v, float):
@@ -44,18 +49,23 @@ def to_json(v):
     if isinstance(v, bytes):
         return {'b': v.hex()}
     if isinstance(v, list):
-        return {'a': [to_json(x) for x in v]}
+        return {'a': [to_json(x, _stack) for x in v]}
     if isinstance(v, tuple):
-        return {'t': [to_json(x) for x in v]}
+        return {'t': [to_json(x, _stack) for x in v]}
     if isinstance(v, dict):
-        return {'m': [[to_json(k), to_json(x)] for k, x in v.items()]}
+        return {'m': [[to_json(k, _stack), to_json(x, _stack)] for k, x in v.items()]}
     return {'o': 1}
 
 
-def serialisable(v, key=False):
-    """independent statement of 'dumps accepts it' (MessagePack data model as Python objects)"""
+def serialisable(v, key=False, _stack=()):
+    """independent statement of 'dumps accepts it' (MessagePack data model as Python objects; a container that
+    contains itself is not a finite value: dumps raises RecursionError)"""
     if v is None or isinstance(v, bool):
         return True
+    if isinstance(v, (list, tuple, dict)):
+        if id(v) in _stack:
+            return False
+        _stack = _stack + (id(v),)
     if isinstance(v, int):
         return -2 ** 63 <= v < 2 ** 64
     if isinstance(v, float) or isinstance(v, bytes):
@@ -63,9 +73,9 @@ def serialisable(v, key=False):
     if isinstance(v, str):
         return encodable(v)
     if isinstance(v, (list, tuple)):
-        return all(serialisable(x, key) for x in v)
+        return all(serialisable(x, key, _stack) for x in v)
     if isinstance(v, dict):
-        return all(serialisable(k, True) and serialisable(x) for k, x in v.items())
+        return all(serialisable(k, True, _stack) and serialisable(x, False, _stack) for k, x in v.items())
     return False
 
 
@@ -162,6 +172,8 @@ EVAL_UNSER = [
     'return 2**64', 'return -2**63-1', 'return [0, 2**70]', 'return "\\udc80"', 'return {"k": "\\ud800"}', 'return 1j',
     'return frozenset()', 'return range(3)', 'return type', 'import os\nreturn os', 'return {object(): 1}', 'return bytearray(b"x")',
     'raise ValueError("\\udc80")',
+    'x = []\nx.append(x)\nreturn x', 'd = {}\nd["self"] = d\nreturn d', 'x = [1]\nx.append((2, [x]))\nreturn (0, x)',
+    'return ["ok", "\\udfff"]', 'return {"\\ud800k": 1}',
 ]
 COUNTER_RESET = 'import sys\nsys._c15_counter = 0\nreturn 0'
 COUNTER_INC = 'import sys\nsys._c15_counter = getattr(sys, "_c15_counter", 0) + 1\nreturn sys._c15_counter'
@@ -526,8 +538,14 @@ class Runner(object):
             prev_failing = repr(req.plain()).replace(self.root, '') if is_fail else None
             if req.name == 'configure' and out[0] == 'ok':
                 self.configured = True
-            if not self.remote.alive():
+            if real[0] == 'client-error' or not self.remote.alive():
+                # transport error / dead process: the server was terminated by this request (the isolation half of the property).
+                # Recorded above as a failing input; the remaining sequences get a fresh server.
+                if real[0] == 'client-error' and not is_fail:
+                    check.fail('server process terminated (request %d %s%s): %s' % (i, req.kind, label, short(real, 160)),
+                               dict(replayable(self.root, seq[:i + 1], fresh), index=i))
                 self.pending.append((seq[:i + 1], conf0, outs, reals, fresh))
+                self.remote.kill()
                 self.remote = None
                 return reals
         self.pending.append((seq, conf0, outs, reals, fresh))
@@ -596,7 +614,10 @@ def run_stream(remote, msgs):
         if m is None:
             sent_eof = True
             break
-        conn.send_bytes(m)
+        try:
+            conn.send_bytes(m)
+        except (OSError, EOFError):     # the server is gone: what it answered so far is still readable
+            break
     replies = []
     if sent_eof:
         # half-close is not available: read what is already answered, then close
@@ -611,12 +632,12 @@ def run_stream(remote, msgs):
     else:
         t = time.time()
         while time.time() - t < 8:
-            if conn.poll(0.2):
-                try:
+            try:
+                if conn.poll(0.2):
                     replies.append(conn.recv_bytes())
-                except (EOFError, OSError):
+                elif remote.env.proc.poll() is not None:
                     break
-            elif remote.env.proc.poll() is not None:
+            except (EOFError, OSError):
                 break
         try:
             conn.close()
@@ -754,11 +775,17 @@ def run(check):
         # 4. close() ends the process
         last = runner.remote
         if last is not None:
-            last.env.close()
+            if not last.alive():
+                check.fail('server process was dead before close() (terminated by an earlier request)',
+                           replayable(root, burst, False))
+            try:
+                last.env.close()
+            except Exception as e:      # transport error: the server is gone
+                check.fail('close() failed in the client: %s: %s' % (type(e).__name__, e), replayable(root, burst, False))
             rc = last.wait_exit(6.0)
             if rc is None:
                 check.fail('close() did not end the server process', {'kind': 'close'})
-                last.kill()
+            last.kill()
             runner.remote = None
 
         # 5. raw streams against `serverRun`: close / EOF / undecodable / wrong shapes / pipelined requests
